@@ -413,9 +413,19 @@ def _mod(a, b):
     return res
 
 
+ALLOW_NONLINEAR_DIV = False
+
+
 def _truediv(a, b):
+    ra = z3.ToReal(a) if a.sort() == z3.IntSort() else a
+    rb = z3.ToReal(b) if b.sort() == z3.IntSort() else b
     if z3.is_int_value(b) or z3.is_rational_value(b):
-        return z3.ToReal(a) / z3.ToReal(b) if a.sort() == z3.IntSort() else a / (z3.ToReal(b) if b.sort() == z3.IntSort() else b)
+        return ra / rb
+    if ALLOW_NONLINEAR_DIV:
+        # harness opted in: division by a symbolic (non-zero) value, handed to z3's nonlinear real arithmetic
+        if ENG.mode == "sym" and ENG.feasible(rb == 0):
+            raise Concretised("division by a possibly-zero symbolic value")
+        return ra / rb
     raise Concretised("true division by symbolic value")
 
 
